@@ -105,9 +105,13 @@ def classify(op, impl):
 
 def tsan_site(exe, case):
     """Re-run a (minimised) case and extract where ThreadSanitizer saw the race."""
-    r = subprocess.run([exe], input="\n".join(case) + "\n", stdout=subprocess.PIPE, stderr=subprocess.PIPE, text=True,
-                       env=dict(os.environ, **TSAN_ENV), timeout=600)
-    err = r.stderr
+    err = ""
+    for _ in range(6):       # a race needs the two accesses to meet: retry until the detector reports again
+        r = subprocess.run([exe], input="\n".join(case) + "\n", stdout=subprocess.PIPE, stderr=subprocess.PIPE, text=True,
+                           env=dict(os.environ, **TSAN_ENV), timeout=600)
+        err = r.stderr
+        if "ThreadSanitizer" in err:
+            break
     glob = re.search(r"Location is global '([^']+)'", err)
     fn = ""
     for fm in re.finditer(r"#\d+ (?:0x[0-9a-f]+ in )?([^\n]+?) (/[^\n: ]+):(\d+)", err):
@@ -177,8 +181,8 @@ def run(chk):
         raise RuntimeError(f"ThreadSanitizer self-test did not report the deliberate race: {st!r}")
     rng = random.Random(chk.seed)
     sig_of = make_sig_of(exe)
-    per_k = 40 if chk.tier == "quick" else 500
-    scale = 1 if chk.tier == "quick" else 3
+    per_k = 30 if chk.tier == "quick" else 300
+    scale = 1 if chk.tier == "quick" else 2
     total = corr.collections.Counter()
     dropped = 0
     cid = 0
